@@ -157,3 +157,26 @@ Lemma ldiff_byte f n : is8 f -> is8 n -> Z.ldiff f n = Z.land f (255 - n).
 Proof. intros Hf Hn. enum2 f n. Qed.
 Lemma ldiff_255 f : is8 f -> Z.ldiff f 255 = 0.
 Proof. intros Hf. enum1 f. Qed.
+
+(* boolean-valued versions *)
+Lemma eqb_by_bytes1 (F G : Z -> bool) :
+  all_below 256 (fun a => Bool.eqb (F a) (G a)) = true -> forall a, is8 a -> F a = G a.
+Proof. intros H a Ha. apply Bool.eqb_prop. exact (forall_byte _ H a Ha). Qed.
+Lemma eqb_by_bytes2 (F G : Z -> Z -> bool) :
+  all_below 256 (fun a => all_below 256 (fun b => Bool.eqb (F a b) (G a b))) = true ->
+  forall a b, is8 a -> is8 b -> F a b = G a b.
+Proof. intros H a b Ha Hb. apply Bool.eqb_prop. exact (forall_byte2 _ H a b Ha Hb). Qed.
+Ltac benum1 a :=
+  lazymatch goal with |- ?L = ?R =>
+    let F := lazymatch (eval pattern a in L) with ?f _ => f end in
+    let G := lazymatch (eval pattern a in R) with ?f _ => f end in
+    exact (eqb_by_bytes1 F G ltac:(vm_compute; reflexivity) a ltac:(assumption)) end.
+Ltac benum2 a b :=
+  lazymatch goal with |- ?L = ?R =>
+    let F := lazymatch (eval pattern a, b in L) with ?f _ _ => f end in
+    let G := lazymatch (eval pattern a, b in R) with ?f _ _ => f end in
+    exact (eqb_by_bytes2 F G ltac:(vm_compute; reflexivity) a b ltac:(assumption) ltac:(assumption)) end.
+(* bit numbers 0..7 *)
+Lemma bits8 (P : Z -> Prop) : P 0 -> P 1 -> P 2 -> P 3 -> P 4 -> P 5 -> P 6 -> P 7 -> forall b, 0 <= b < 8 -> P b.
+Proof. intros. assert (b = 0 \/ b = 1 \/ b = 2 \/ b = 3 \/ b = 4 \/ b = 5 \/ b = 6 \/ b = 7) as E by lia.
+  repeat (destruct E as [->|E]; [assumption|]). subst; assumption. Qed.
